@@ -2,6 +2,7 @@ import Pycoin.Driver.Core
 import Pycoin.DriverLib.TxText
 import Pycoin.DriverLib.History
 import Pycoin.Model.TxCheck
+import Pycoin.Model.CoinbaseTx
 namespace Pycoin.Driver.C20
 open Pycoin Pycoin.Driver Pycoin.DriverLib Pycoin.TxCheck
 
@@ -31,6 +32,14 @@ def handle : Handler := fun op args =>
     let _ ← parseCoin? c
     let tx ← parseTx? tx
     some s!"ok {badSolutionCount tx (fun _ => false)}"
+  -- Tx.coinbase_tx(sec, value, coinbase_bytes, version, lock_time): the fields, check(), is_coinbase(), bad_solution_count()
+  | "cb_tx", [c, sec, v, cb, ver, lt] => do
+    let c ← parseCoin? c
+    let sec ← parseHex? sec
+    let cb ← parseHex? cb
+    let tx := coinbaseTx sec (← parseInt? v) cb (← parseInt? ver) (← parseInt? lt)
+    let verdict := match check c tx [0] with | .ok () => "ok" | .error e => "err:" ++ e.tag
+    some s!"ok {showTx tx} {verdict} {showBool tx.isCoinbase} {badSolutionCount tx (fun _ => false)}"
   | "check_hist", [c, tx, steps] => histOp c tx steps
   | _, _ => none
 
